@@ -268,20 +268,21 @@ fn is_identity_acceptable(items: &'_ [QualityItem<Preference<Encoding>>]) -> boo
         return true;
     }
 
-    // Loop algorithm depends on items being sorted in descending order of quality. As such, it
-    // is sufficient to return (q > 0) when reaching either an "identity" or "*" item.
-    for q in items {
-        match (q.quality, &q.item) {
-            // occurrence of "identity;q=n"; return true if quality is non-zero
-            (q, Preference::Specific(Encoding::Known(ContentEncoding::Identity))) => {
-                return q > Quality::ZERO
-            }
+    // Items are sorted in descending order of quality, so the first "identity" item carries the
+    // highest quality given for it. An explicit "identity" entry is more specific than "*" and
+    // takes precedence over it regardless of position (e.g., "*, identity;q=0").
+    if let Some(q) = items.iter().find(|q| {
+        matches!(
+            q.item,
+            Preference::Specific(Encoding::Known(ContentEncoding::Identity))
+        )
+    }) {
+        return q.quality > Quality::ZERO;
+    }
 
-            // occurrence of "*;q=n"; return true if quality is non-zero
-            (q, Preference::Any) => return q > Quality::ZERO,
-
-            _ => {}
-        }
+    // no explicit "identity"; occurrence of "*;q=n" decides
+    if let Some(q) = items.iter().find(|q| matches!(q.item, Preference::Any)) {
+        return q.quality > Quality::ZERO;
     }
 
     // implicit acceptable identity
@@ -333,6 +334,14 @@ mod tests {
         assert!(!is_identity_acceptable(&test));
         let test = accept_encoding_ranked!("gzip", "*;q=0", "identity;q=0");
         assert!(!is_identity_acceptable(&test));
+
+        // explicit identity entry wins over wildcard regardless of q-ordering
+        let test = accept_encoding_ranked!("*", "identity;q=0");
+        assert!(!is_identity_acceptable(&test));
+        let test = accept_encoding_ranked!("identity;q=0", "*;q=0.5");
+        assert!(!is_identity_acceptable(&test));
+        let test = accept_encoding_ranked!("*;q=0", "identity;q=0.5");
+        assert!(is_identity_acceptable(&test));
     }
 
     #[test]
@@ -390,6 +399,12 @@ mod tests {
         );
         assert_eq!(
             test.negotiate([Encoding::brotli(), Encoding::identity()].iter()),
+            None
+        );
+
+        let test = accept_encoding!("*", "identity;q=0");
+        assert_eq!(
+            test.negotiate([Encoding::gzip(), Encoding::identity()].iter()),
             None
         );
 
